@@ -109,6 +109,25 @@ def run(ctx):
             add('Dot11::from_bytes', bhdr + bytes([0, 3]) + b'abc' + bytes([code, ln]) + data)
             nn_opt = 0
             n_opt += 2
+    # DHCPv6 class options (user class 15: entries of 16-bit length + data; vendor class 16: enterprise number first): well-formed
+    # entry lists followed by 0..3 stray octets, the whole longer than the 8 octets an option keeps in place (so that the data
+    # sits in its own heap block), read through the typed accessors
+    for rep in range(40 if quick else 600):
+        for code in (15, 16):
+            ents = b''.join(struct.pack('>H', ln) + bytes(rng.randrange(256) for _ in range(ln)) for ln in (rng.choice([0, 1, 3, 6, 9]) for _ in range(rng.randrange(1, 4))))
+            data = (struct.pack('>I', rng.randrange(1 << 32)) if code == 16 else b'') + ents + bytes(rng.randrange(256) for _ in range(rng.choice([0, 1, 1, 2, 3])))
+            add('DHCPv6', bytes([1, 1, 2, 3]) + struct.pack('>HH', code, len(data)) + data)
+            n_opt += 1
+    # MLDv2 reports (ICMPv6 type 143): records announcing sources and auxiliary words, cut at every length
+    for rep in range(4 if quick else 40):
+        recs = b''
+        for _ in range(rng.randrange(1, 3)):
+            ns, aux = rng.choice([0, 1, 1, 2, 3]), rng.choice([0, 0, 1, 2])
+            recs += bytes([rng.randrange(1, 7), aux]) + struct.pack('>H', ns) + bytes([0xff, 2] + [rng.randrange(256) for _ in range(14)]) + bytes(rng.randrange(256) for _ in range(16 * ns + 4 * aux))
+        rep_b = bytes([143, 0, 0, 0, 0, 0]) + struct.pack('>H', rng.choice([1, 2])) + recs
+        for cut in range(8, len(rep_b) + 1):
+            add('ICMPv6', rep_b[:cut])
+            n_opt += 1
     # link-layer headers that announce their own length: RadioTap (it_len against the chain of present words whose bit 31 announces
     # another word) and PPI (pph_len against the 802.11-common field the FCS flag is read from), every announced length around the
     # word / field boundaries, with and without bytes behind the header
